@@ -7,6 +7,7 @@ import (
 	"bytes"
 	"context"
 	"encoding/json"
+	"errors"
 	"fmt"
 	"net/http"
 	"net/http/httptest"
@@ -272,7 +273,7 @@ func drawConcurrently(tr vegeta.Targeter, callers int) []callerLog {
 					continue
 				}
 				switch {
-				case err == vegeta.ErrNoTargets:
+				case errors.Is(err, vegeta.ErrNoTargets):
 					l.exhausted++
 				case err != nil:
 					l.results = append(l.results, "err "+err.Error())
@@ -366,16 +367,17 @@ func runStream(s *kit.Summary, sc *streamCase) (implLine string) {
 		ex[g] = uint64(l.exhausted)
 		late += l.late
 	}
-	// one caller alone receives the targets in input order
+	// (that a single caller receives the targets in input order is C14's clause, not C15's:
+	// it is counted here, not judged)
 	if sc.Callers == 1 && len(logs) == 1 {
-		s.Count(sc.Format + ":single_caller_order_checked")
+		inOrder := len(logs[0].results) == len(sc.Expected)
 		for i, e := range sc.Expected {
 			if i >= len(logs[0].results) || logs[0].results[i] != "ok "+e {
-				s.Violate(kit.Violation{Kind: "stream_order", What: "a single caller did not receive the stream's targets in input order", Input: sc,
-					Expected: fmt.Sprintf("result %d = %s", i, e), Observed: fmt.Sprint(clip(logs[0].results[min(i, len(logs[0].results)):]))})
+				inOrder = false
 				break
 			}
 		}
+		s.Count(fmt.Sprintf("%s:single_caller_in_input_order=%v", sc.Format, inOrder))
 	}
 	if sc.LongLine {
 		s.Count(sc.Format + ":line>4096")
@@ -412,7 +414,7 @@ func runStream(s *kit.Summary, sc *streamCase) (implLine string) {
 	}
 	for i := 0; i < 3; i++ {
 		var t vegeta.Target
-		if err := tr(&t); err != vegeta.ErrNoTargets {
+		if err := tr(&t); !errors.Is(err, vegeta.ErrNoTargets) {
 			s.Violate(kit.Violation{Kind: "exhaustion_not_stable", What: "a call after exhaustion did not report ErrNoTargets", Input: sc, Observed: fmt.Sprint(err)})
 		}
 	}
